@@ -107,6 +107,12 @@ impl<B: Body<Data = Bytes, Error = Status> + Unpin> Body for Guard<B> {
         }
         Pin::new(&mut self.inner).poll_frame(cx)
     }
+    fn is_end_stream(&self) -> bool {
+        self.inner.is_end_stream()
+    }
+    fn size_hint(&self) -> http_body::SizeHint {
+        self.inner.size_hint()
+    }
 }
 
 // ------------------------------------------------------------------ case input
